@@ -92,7 +92,9 @@ func facts(m protoreflect.Message, depth int, mapped, withAny bool, out *[]node)
 				n.AnyBad++
 			} else {
 				inner := mt.New().Interface()
-				if err := proto.Unmarshal(a.Value, inner); err != nil {
+				if err := proto.Unmarshal(a.Value, inner); err != nil || hasUnknown(inner.ProtoReflect(), 0) {
+					// (the generator never produces unknown fields: bytes that decode into unknown
+					// fields of the URL's type were generated for another type)
 					n.AnyBad++
 				} else {
 					facts(inner.ProtoReflect(), depth+1, mapped, withAny, out)
@@ -409,4 +411,32 @@ func cmdRapidgen(args []string) {
 			}
 		}
 	}
+}
+
+// hasUnknown reports whether m or any message below it (a few levels) holds unknown fields.
+func hasUnknown(m protoreflect.Message, depth int) bool {
+	if len(m.GetUnknown()) > 0 {
+		return true
+	}
+	if depth > 6 {
+		return false
+	}
+	found := false
+	m.Range(func(fd protoreflect.FieldDescriptor, v protoreflect.Value) bool {
+		switch {
+		case fd.IsMap() && fd.MapValue().Message() != nil:
+			v.Map().Range(func(_ protoreflect.MapKey, mv protoreflect.Value) bool {
+				found = found || hasUnknown(mv.Message(), depth+1)
+				return !found
+			})
+		case fd.IsList() && fd.Message() != nil:
+			for i := 0; i < v.List().Len() && !found; i++ {
+				found = hasUnknown(v.List().Get(i).Message(), depth+1)
+			}
+		case fd.Message() != nil && !fd.IsMap() && !fd.IsList():
+			found = hasUnknown(v.Message(), depth+1)
+		}
+		return !found
+	})
+	return found
 }
